@@ -19,8 +19,7 @@ round-trip, each continuing on the newest vector, plus writes to the original) f
 (1 finite-bounded name with hit checking; 2 names with half-infinite bounds and NaN allowed; no name;
 2 names, no hit checking, defaults from clip(0)); (ii) random vectors (0-4 names, finite / infinite /
 degenerate bounds, all flag combinations, arguments given or omitted) x random sequences of depth 40
-with values inside, on, 1e-6 / 1 / 1e300 outside, +-inf, NaN and 5e-11 outside (inside the EPS
-margin, where only the correspondence is checked), whole-vector assignments fed from lists, arrays and
+with values inside, on, 1e-6 / 1 / 1e300 outside, +-inf, NaN, whole-vector assignments fed from lists, arrays and
 other vectors' own arrays; (iii) a malformed-constructor stream; (iv) every transform class (several
 constructor arguments) x random interleavings of forward / backward / jacobian / params_sample /
 params_logprior / str with item, attribute, whole-vector assignments and reset.
@@ -608,7 +607,10 @@ def value_for(rng, lo, hi, cls):
     raise ValueError(cls)
 
 
-VALUE_CLASSES = ["inside", "inside", "on_lo", "on_hi", "below6", "above6", "below", "above", "margin_lo", "margin_hi",
+# assigned values: the property conditions on "at least 1e-6 away from a bound or exactly on it"; values inside the
+# (0, 1e-10] margin (where the two assignment paths set the flag differently) are outside the quantifier and are not
+# generated for assignments (a rewrite that harmonises the two conventions there must stay silent)
+VALUE_CLASSES = ["inside", "inside", "on_lo", "on_hi", "below6", "above6", "below", "above",
                  "nan", "pinf", "ninf", "huge"]
 ALLNAMES = ["a", "b", "c", "d"]
 
@@ -798,7 +800,7 @@ def exhaustive_shapes():
           "an": False}
     a4 = [("sa", "cur", "a", 2.0), ("sk", "cur", "a", 0.0), ("sa", "cur", "b", -2.0), ("sa", "cur", "b", NAN),
           ("sv", "cur", [5.0, -2.0]), ("sv", "cur", [2.5, -2.0 - 1e-6]), ("sv", "cur", (0, "maxs"), "getter"),
-          ("rs", "cur"), ("cl", "cur"), ("dr", "cur"), ("sa", 0, "a", 1.0 - 5e-11), ("gk", "cur", "zz"),
+          ("rs", "cur"), ("cl", "cur"), ("dr", "cur"), ("sa", 0, "a", 1.0 - 1e-6), ("gk", "cur", "zz"),
           ("sb", "cur", "all"), ("rd", "cur", "st")]
     return [(s1, a1), (s2, a2), (s3, a3), (s4, a4)]
 
@@ -854,7 +856,7 @@ def gen_top(rng, pspec, cspec):
             sp, nm = rng.choice(both)
             i = sp["names"].index(nm)
             cls = rng.choice(["inside", "inside", "on_lo", "on_hi", "below", "above", "below6", "above6", "nan",
-                              "margin_lo", "pinf"])
+                              "pinf"])
             x = nz(value_for(rng, sp["mins"][i], sp["maxs"][i], cls))
             if rng.random() < 0.3:
                 # values at and next to the points where a transform formula changes branch (exponents 0 and 2,
@@ -1189,8 +1191,9 @@ def body(ctx):
     ctx.assumptions += [
         "names are distinct identifiers that do not collide with attributes of the Vector class",
         "bounds are finite or infinite, not NaN (a NaN bound is accepted by the constructor when accept_nan=True; outside the quantifier)",
-        "the hit flag is compared with 'clipped' only for assigned values inside, on, or >= 1e-6 outside the bounds (the values "
-        "setter uses a 1e-10 margin, __setattr__ does not); inside the margin only model == code is checked",
+        "assigned values are inside, on, or >= 1e-6 outside the bounds (the property's conditioning); inside the (0, 1e-10] margin "
+        "the values setter clips without flagging while __setattr__ flags: not generated for assignments, only for constructor "
+        "defaults / maxs (accepted and clipped)",
         "whether a read-only transform call itself raises (domain errors, Manly's unbound names) is not compared: only the state after it",
         "numpy.clip / astype / flatten / copy are external: observed through values and np.shares_memory, modelled as fresh allocations",
     ]
